@@ -105,8 +105,7 @@ Definition mon_C01 (x o : sx) : sx :=
        end.
 
 (* ---- C02 ---- *)
-Definition mon_C02 (x o : sx) : sx :=
-  let '(c, rs, q, sc) := route_case x in
+Definition c02_check (rs : list rule) (q : req) (log : list sx) : sx :=
   let per_dlv d :=
       match rule_for_url rs (dl_url d) with
       | None => verdict false "delivery to a destination no rule names"
@@ -119,7 +118,10 @@ Definition mon_C02 (x o : sx) : sx :=
         then verdict false "query string not carried over verbatim"
         else v_ok
       end in
-  first_fail (map per_dlv (obs_log o)).
+  first_fail (map per_dlv log).
+
+Definition mon_C02 (x o : sx) : sx :=
+  let '(c, rs, q, sc) := route_case x in c02_check rs q (obs_log o).
 
 (* ---- C03 ---- *)
 Definition flavour_overrides (rs : list rule) (q : req) : list (str * option str) :=
@@ -128,8 +130,7 @@ Definition flavour_overrides (rs : list rule) (q : req) : list (str * option str
   | None => []
   end.
 
-Definition mon_C03 (x o : sx) : sx :=
-  let '(c, rs, q, sc) := route_case x in
+Definition c03_check (rs : list rule) (q : req) (log : list sx) : sx :=
   let expected := expected_hdrs (q_hdrs q) (flavour_overrides rs q) in
   let per_dlv d :=
       match rule_for_url rs (dl_url d) with
@@ -143,7 +144,10 @@ Definition mon_C03 (x o : sx) : sx :=
         then verdict false "Host does not follow the rule's hostheader setting"
         else v_ok
       end in
-  first_fail (map per_dlv (obs_log o)).
+  first_fail (map per_dlv log).
+
+Definition mon_C03 (x o : sx) : sx :=
+  let '(c, rs, q, sc) := route_case x in c03_check rs q (obs_log o).
 
 (* ---- C20 ---- *)
 (* the copy rule the property designates: the first copy-typed rule before the chosen proxy
